@@ -75,6 +75,16 @@ func oracleFor(op *Sexp, res string) []string {
 		return []string{"panic: " + lastPanic}
 	}
 	switch op.head() {
+	case "alias":
+		return oracleAlias(op, res)
+	case "world":
+		return oracleWorld(op, res)
+	case "tagtool":
+		return oracleTagtool(op, res)
+	case "jrt":
+		return oracleJRT(op, res)
+	case "desc":
+		return oracleDesc(op, res)
 	case "sched":
 		return oracleSched(op, res)
 	case "descjson":
@@ -173,6 +183,26 @@ func oracleFor(op *Sexp, res string) []string {
 		want := "ok " + hx(cfgRef(c.cfg).top(c.td, v, c.tag))
 		if res != want {
 			bad("Marshal output differs from the documented format: got %s want %s", res, want)
+		}
+	case "decm":
+		c, err := parseCtx(op)
+		if err != nil {
+			return nil
+		}
+		v, err := parseVal(op.List[4])
+		if err != nil {
+			return nil
+		}
+		prior := zeroVal(c.td)
+		if len(op.List) > 5 && op.List[5].IsL {
+			prior, err = parseVal(op.List[5])
+			if err != nil {
+				return nil
+			}
+		}
+		want := "ok " + mergeTop(c.td, prior, v, c.cfg[1] == '1').String()
+		if res != want {
+			bad("target after Unmarshal breaks the merge rules: got %s want %s", res, want)
 		}
 	case "dec":
 		if res != "err" && !strings.HasPrefix(res, "ok ") && res != "builderr" {
